@@ -12,6 +12,17 @@ CHECKS = {
 NOT_APPLICABLE = {}
 
 ENGINES = [
+    dict(name="sched", path="src/sched/sched.go", serves_properties=["C18"],
+         kind_free_text="stateless model checker for goroutine interleavings on the real code: cooperative scheduler behind a sync shim (lru.go is recompiled from the working tree with sync->vsync and a Step() before every statement), DFS over every scheduling choice, optional preemption bound, deadlock detection, deterministic replay; brute-force linearizability against a sequential model; separate free-running -race pass"),
+    dict(name="hist", path="src/cmd/c18/main.go (seqClosure), src/cmd/c09, src/cmd/c13", serves_properties=["C09", "C13", "C18", "C12"],
+         kind_free_text="explicit-state BFS over operation histories of real objects: successor = replay of the shortest history on a fresh real object + one operation, canonical state key read from the real object's fields through hooks, every step compared with a reference model"),
     dict(name="enum", path="src/mc/mc.go", serves_properties=["C01", "C02", "C03", "C04", "C05", "C07", "C10", "C11", "C14", "C15", "C16", "C17", "C19", "C20"],
          kind_free_text="bounded-exhaustive explicit-state enumeration: full Cartesian product of finite code-derived alphabets, every tuple executed on the real code and compared with a math/big reference; deterministic, replay by (sub-space, index)"),
 ]
+
+CHECKS["C18"] = dict(
+    bin="c18", level="model_checking", engine="sched", extra_pass="c18_race",
+    shards={"quick": 4, "thorough": 4}, parallel=16, gomaxprocs=1,
+    rule="(a) complete reachable state graph of the real LRU cache for capacities 1..3(4) over universes of capacity+2 keys, every Get/Put from every state, successor = replay on a fresh real cache, compared with a sequential LRU model; (b) for EVERY program of T threads x n ops over {Get,Put} x 3 colliding keys (modulo thread permutation) and capacity 1,2: every schedule of the real lruCache under a cooperative scheduler (scheduling points at every lock acquisition; statement-level points with preemption bound 2 as soon as any statement runs outside a critical section), each call/return history checked for linearizability against the LRU model by brute force, plus structural invariants and deadlock detection; (c) the same for the caching Verifier against plain verification; (d) free-running -race pass. Non-trivial = program in which two threads touch the same key",
+    assumptions=["Go memory model below the race detector's happens-before is not modelled", "2-3 threads, <=3 operations each"],
+)
